@@ -269,6 +269,24 @@ fn region_level(ctx: &mut Ctx, arena: &Arena, region: &[u8], elf_names: bool, me
                                     match b.ctx.call("tags.next", || it.next()) {
                                         Out::Panic => {
                                             b.recs.push(Rec { name: "tags.next", val: Val::Panic });
+                                            // a caller that catches the unwind and asks the same iterator again
+                                            for _ in 0..2 {
+                                                match b.ctx.call("tags.next-after-panic", || it.next()) {
+                                                    Out::Panic => b.recs.push(Rec { name: "tags.resumed", val: Val::Panic }),
+                                                    Out::Val(None) => {
+                                                        b.recs.push(Rec { name: "tags.resumed", val: Val::E(0) });
+                                                        break;
+                                                    }
+                                                    Out::Val(Some(t)) => {
+                                                        let off = rel(t, p);
+                                                        let sov = std::mem::size_of_val(t);
+                                                        b.recs.push(Rec { name: "tags.resumed", val: Val::S { off, len: sov, hash: 0 } });
+                                                        if off < 8 || off as usize + sov > total {
+                                                            b.recs.push(Rec { name: "tags.outside", val: Val::U(off as u64) });
+                                                        }
+                                                    }
+                                                }
+                                            }
                                             break;
                                         }
                                         Out::Val(None) => {
@@ -304,6 +322,22 @@ fn region_level(ctx: &mut Ctx, arena: &Arena, region: &[u8], elf_names: bool, me
                                     match b.ctx.call("modules.next", || it.next()) {
                                         Out::Panic => {
                                             b.recs.push(Rec { name: "modules.next", val: Val::Panic });
+                                            for _ in 0..2 {
+                                                match b.ctx.call("modules.next-after-panic", || it.next()) {
+                                                    Out::Panic => b.recs.push(Rec { name: "modules.resumed", val: Val::Panic }),
+                                                    Out::Val(None) => {
+                                                        b.recs.push(Rec { name: "modules.resumed", val: Val::E(0) });
+                                                        break;
+                                                    }
+                                                    Out::Val(Some(m)) => {
+                                                        let off = rel(m, p);
+                                                        b.recs.push(Rec { name: "modules.resumed", val: Val::U(off as u64) });
+                                                        if off < 8 || off as usize + std::mem::size_of_val(m) > total {
+                                                            b.recs.push(Rec { name: "tags.outside", val: Val::U(off as u64) });
+                                                        }
+                                                    }
+                                                }
+                                            }
                                             break;
                                         }
                                         Out::Val(None) => break,
@@ -313,7 +347,12 @@ fn region_level(ctx: &mut Ctx, arena: &Arena, region: &[u8], elf_names: bool, me
                                     }
                                 }
                             }
-                            lists[slot] = b.recs;
+                            let recs = std::mem::take(&mut b.recs);
+                            drop(b);
+                            if recs.iter().any(|r| r.name == "tags.outside") {
+                                ctx.violation("c01/extent/region/module-walk", || "the module iterator handed out a tag outside the region".into());
+                            }
+                            lists[slot] = recs;
                         }
                         _ => {
                             #[allow(deprecated)]
